@@ -29,14 +29,14 @@ I(kind, ps, k, c, s) == [kind |-> kind, ps |-> ps, k |-> k, c |-> c, s |-> s]
 GridQuick == { I("hap", <<2>>, 2, 2, 2), I("hap", <<2>>, 3, 2, 2), I("hap", <<3>>, 2, 2, 2),
                I("hap", <<2>>, 2, 1, 3), I("hap", <<1>>, 3, 2, 2),
                I("allele", <<2>>, 3, 2, 2), I("allele", <<3>>, 2, 2, 2), I("allele", <<2>>, 2, 2, 3),
-               I("allele", <<4>>, 2, 2, 2), I("allele", <<3>>, 3, 1, 3),
+               I("allele", <<4>>, 2, 2, 2), I("allele", <<3>>, 3, 1, 2),
                I("ped", <<2, 1>>, 2, 2, 2), I("ped", <<1, 3>>, 2, 1, 3) }
 
 (* thorough: three parts, model-checked and replayed one after the other        *)
 GridThorough == GridQuick \cup
              { I("hap", <<2>>, 4, 1, 3), I("hap", <<2>>, 3, 1, 4), I("hap", <<3>>, 3, 1, 3),
                I("hap", <<2>>, 2, 2, 3), I("hap", <<4>>, 2, 1, 3), I("hap", <<2>>, 2, 3, 2) }
-GridThoroughB == { I("allele", <<3>>, 3, 2, 2), I("allele", <<4>>, 3, 1, 3), I("allele", <<2>>, 2, 3, 2),
+GridThoroughB == { I("allele", <<3>>, 3, 2, 2), I("allele", <<3>>, 3, 1, 3), I("allele", <<4>>, 3, 1, 3), I("allele", <<2>>, 2, 3, 2),
                    I("allele", <<2>>, 3, 1, 4), I("allele", <<6>>, 2, 2, 2), I("allele", <<2>>, 4, 1, 3),
                    I("allele", <<2>>, 2, 2, 4),
                    I("ped", <<2, 2>>, 2, 2, 2), I("ped", <<4, 2>>, 2, 1, 3), I("ped", <<2, 1, 1>>, 2, 1, 3) }
